@@ -13,7 +13,7 @@ RULES = {
     'R3': 'bin shift, element mask + 1 and calloc count are the same power of two; MAX_BINS * MAX_ELEMENTS_PER_BIN == QB_ARRAY_MAX_ELEMENTS',
     'R4': 'idx < 0 and idx >= max_elements (-ERANGE or grow) are decided before the bin number is computed; grow/create reject > QB_ARRAY_MAX_ELEMENTS',
 }
-FLOORS = {'R1': 15, 'R2': 6, 'R3': 4, 'R4': 4}
+FLOORS = {'R1': 15, 'R2': 6, 'R3': 4, 'R4': 5}
 
 EXEMPT = {'qb_array_create_2': 'object not yet published', 'qb_array_free': 'teardown: documented as single-threaded'}
 GUARDED = ('bin', 'num_bins', 'max_elements')
@@ -252,6 +252,23 @@ def r4(ctx, by):
                 rets, _e, _n = f.search(('edge', blk.id, t), goal=lambda ev: ev.kind == 'RETURN')
                 ok = bool(rets) and all(cval(unwrap(ev.e)) == -34 for (ev, _p) in rets)
     ctx.check('R4', 'no-autogrow-returns-ERANGE', ok, f, 'beyond the size without auto-grow returns -ERANGE', 'beyond the size without auto-grow does not return -ERANGE')
+    # an index below the limit never asks for more than the limit: the auto-grow request is what the index needs (idx + 1), or is
+    # cut to the limit
+    ags = [ev for ev in f.events('CALL') if ev.callee == 'qb_array_grow'] + \
+          [ev for ev in f.events('STORE') if ev.rhs is not None and callee_of(unwrap(ev.rhs)) == 'qb_array_grow']
+    reqs = []
+    for ev in ags:
+        call = unwrap(ev.rhs) if ev.kind == 'STORE' else ev.e
+        if isinstance(call, dict) and call.get('args') and not any(estr(unwrap(call['args'][1])) == estr(r_) for (_e, r_) in reqs):
+            reqs.append((ev, unwrap(call['args'][1])))
+    if not reqs:
+        raise AnalysisBroken('qb_array_index: no auto-grow request')
+    for ev, rq in reqs:
+        exact = rq.get('k') == 'bin' and rq['op'] == '+' and ((estr(rq['l']) == idxp and cval(unwrap(rq['r'])) == 1) or (estr(rq['r']) == idxp and cval(unwrap(rq['l'])) == 1))
+        cut = rq.get('k') == 'cond' and any(cval(unwrap(x)) == prog_max(ctx) for x in (rq['t'], rq['f']))
+        ctx.check('R4', 'autogrow-asks-for-what-the-index-needs', exact or cut, ev,
+                  'auto-grow asks for idx + 1 elements' if exact else 'the auto-grow request is cut to the limit',
+                  'auto-grow asks for %s elements: for an index just below the limit that can exceed QB_ARRAY_MAX_ELEMENTS, the grow is refused and an index inside the range fails for good' % estr(rq))
     gr = by['qb_array_grow']
     sts = list(gr.stores(field='max_elements', rec='qb_array'))
 
@@ -265,3 +282,16 @@ def r4(ctx, by):
         return a.ls == gr.params[1]['n'] and a.op == '>' and field_is(a.r, 'max_elements')
     ok = bool(sts) and all(gr.uncut_path(st, raises) is None for st in sts)
     ctx.check('R4', 'grow-never-shrinks', ok, sts[0] if sts else gr, 'max_elements only grows', 'qb_array_grow can lower max_elements')
+
+
+def prog_max(ctx):
+    """QB_ARRAY_MAX_ELEMENTS as the grow function compares it"""
+    gr = ctx.prog.fn('qb_array_grow')
+    for b in gr.blocks.values():
+        if b.cond is None:
+            continue
+        for lab in (True, False):
+            for a in atoms_of(b.cond, lab):
+                if a.ls == gr.params[1]['n'] and a.op in ('>', '<=') and a.rc is not None:
+                    return a.rc
+    return None
